@@ -679,8 +679,14 @@ class VcfReader:
             # if requested
             if self._phases:
                 phases = []
-                for call in record.samples.values():
+                for sample_name, call in zip(self.samples, record.samples.values()):
                     phase = None
+                    if (
+                        self.samples_of_interest is not None
+                        and sample_name not in self.samples_of_interest
+                    ):
+                        phases.append(phase)
+                        continue
                     for extract_phase, phase_name in [
                         (self._extract_HP_phase, "HP"),
                         (self._extract_GT_PS_phase, "GT_PS"),
